@@ -169,7 +169,9 @@ claim('C08',
       'outside one side; otherwise exactly one outside end point is replaced by the intersection '
       'of the current line with a boundary it is outside of, orientation kept, all division '
       'denominators provably non-zero, counter incremented; with the counter above every literal '
-      'the loop always returns (bounded). A region test against a boundary moved by a constant '
+      'the loop always returns (bounded); a counted loop (`for _ in range(N)`) is accepted in '
+      'place of the while-form: at least four passes, and with exactly four the code after the '
+      'loop accepts a segment whose end points are inside. A region test against a boundary moved by a constant '
       '(absolute tolerance) is reported with a small-scale witness; returns ahead of the loop are '
       'judged on exact rational inputs against Liang-Barsky clipping (mismatch = violation, '
       'agreement = cannot conclude). Not decided: the floating-point tolerance clauses and '
@@ -229,9 +231,11 @@ claim('C05',
       'fault-free path, at most once on any path, before the first read and not from a loop. '
       'D2 when every read is empty the primitive performs exactly 26 reads (first + 25 re-reads; '
       'loops unrolled abstractly, in helpers too); while-form retry loops increment by one on '
-      'every path and re-read through the same read/decode/strip pipeline. D3/D4 over 3 request '
-      'kinds x representative lengths x 7 reply classes: the request name is the first / first / '
-      'first two characters; success exactly for a non-empty right-name reply without "Err:"; '
+      'every path and re-read through the same read/decode/strip pipeline; the primitives share '
+      'no instance field with earlier requests besides the connection typestate (R-STATE: the '
+      'wait budget is per request). D3/D4 over 4 request '
+      'kinds (one letter, one letter + arguments, two letters, letter + digit such as T3) x representative lengths x 7 reply classes: the request name is the first / first / '
+      'first two / first two characters; success exactly for a non-empty right-name reply without "Err:"; '
       'command returns True/False in step with err; query returns the reply minus name and one '
       'comma (never indexing past a bare-name reply) or None with err recorded. D5 with a '
       'SerialException injected at every port call no request method (about 35) lets an '
